@@ -830,11 +830,23 @@ def cat_spec(keys):
     return [(CAT_TABLES[k][0], CAT_TABLES[k][1], list(CAT_TABLES[k][2])) for k in keys]
 
 
+# struct fields are unordered: the order in which a table's (and an import's) fields are written is rotated through
+# every permutation by this counter, so that `symbols` also comes before `imports`, `max_id` before `name`, ...
+_FIELD_ORDER = [0]
+
+
+def _permuted(fs):
+    import itertools
+    _FIELD_ORDER[0] += 1
+    perms = list(itertools.permutations(range(len(fs))))
+    return [fs[i] for i in perms[_FIELD_ORDER[0] % len(perms)]]
+
+
 def import_struct(name, ver, maxid):
     fs = [(T(b"name"), vstr(name)), (T(b"version"), vint(ver))]
     if maxid is not None:
         fs.append((T(b"max_id"), vint(maxid)))
-    return vstruct(fs)
+    return vstruct(_permuted(fs))
 
 
 def table_value(imports, symbols, ann=None):
@@ -846,7 +858,7 @@ def table_value(imports, symbols, ann=None):
         fs.append((T(b"imports"), vlist([import_struct(*d) for d in imports])))
     if symbols is not None:
         fs.append((T(b"symbols"), vlist([vstr(x) for x in symbols])))
-    return vstruct(fs, ann or T(LST))
+    return vstruct(_permuted(fs), ann or T(LST))
 
 
 def probe(sid, form):
